@@ -81,10 +81,8 @@ def body(run):
             if kk in ('proc_crs', 'mask_partial'):
                 continue
             if kk in via_conf:
+                # (`nodata: null` in the configuration file is a value like any other: write an internal mask)
                 conf[kk] = v if kk != 'nodata' else (None if v == 'null' else v)
-                if kk == 'nodata' and v == 'null':
-                    del conf[kk]
-                    args += ['--nodata', 'null']
             else:
                 args += [flag[kk], repr(v) if isinstance(v, float) else str(v)]
         if co is not None:
@@ -229,16 +227,17 @@ def body(run):
         if nd is not None:
             run.add_violation('a command-line value is overridden by the configuration file', dict(option='--nodata null', conf=dict(nodata='7')),
                               expected='nodata null (internal mask)', observed=dict(effective_nodata=nd), signature=dict(kind='cli-precedence-null', option='nodata'))
-    # unknown configuration key
-    cf = run.work / 'unknown.yaml'
-    cf.write_text(yaml.safe_dump({'max_blok_mem': 1.0}))
-    od = run.work / 'unk'
-    od.mkdir()
-    r = CliRunner().invoke(hcli.cli, ['fuse', '-od', str(od), '-c', str(cf), str(pair['src_fn']), str(pair['ref_fn'])])
-    run.count_case(('unknown-key',), True, None)
-    if r.exit_code == 0 or list(od.glob('*.tif')):
-        run.add_violation('an unknown configuration key was not rejected', dict(conf={'max_blok_mem': 1.0}), observed=dict(exit_code=r.exit_code),
-                          signature=dict(kind='cli-unknown-key'))
+    # unknown configuration keys - whatever their value (a number, null / blank, a nested dictionary)
+    for ui, bad_conf in enumerate([{'max_blok_mem': 1.0}, {'mask_partail': None}, {'creation_option': {'compress': 'lzw'}}, {'threads': 1, 'nodat': None}]):
+        cf = run.work / f'unknown{ui}.yaml'
+        cf.write_text(yaml.safe_dump(bad_conf))
+        od = run.work / f'unk{ui}'
+        od.mkdir()
+        r = CliRunner().invoke(hcli.cli, ['fuse', '-od', str(od), '-c', str(cf), str(pair['src_fn']), str(pair['ref_fn'])])
+        run.count_case(('unknown-key', ui), True, None)
+        if r.exit_code == 0 or list(od.glob('*.tif')):
+            run.add_violation('an unknown configuration key was not rejected', dict(conf=bad_conf), observed=dict(exit_code=r.exit_code),
+                              signature=dict(kind='cli-unknown-key'))
     failing, nt = run.corr('merge', 'Corr.CheckC19', merge_cases)
     for k2 in failing[:5]:
         run.add_break('correspondence-break', 'effective option source differs from Cli.Merge.merge1', dict(merge_metas[k2], case=merge_cases[k2]))
